@@ -9,26 +9,63 @@ from harness import common as C
 
 THEOREMS = 'Properties/C07.v'
 CLAIM = dict(
-    text='Coq theorems, for every d, mode sizes, ranks, sample list (duplicates, weights, any order) about the model '
-         'Model/Als.v of als (constant rank) and Model/AlsFunc.v of als_func (n_max=None): shapes/ranks preserved; '
-         'interface matrices hold the true partial products after every core update; get is linear in one slice with '
-         'the row the code forms; a solution of the normal equations the code forms is the exact minimiser of the '
-         'regularised weighted objective (ring identity, >= 0 at R); J never increases from core update to core '
-         'update / sweep to sweep and the last updated core is optimal (at R, lamb>0, w>=0, solver contract on SPD '
-         'systems); a+b sweeps = a sweeps, restart, b sweeps; the result is invariant under permutations of the '
-         'sample list; uncovered slice => ValueError unless allow_skip_cores; executed sweep count, stop reason, '
-         'cb stops right after its sweep; adaptive mode: every rank <= r (skeleton oracle with inner size <= r). '
-         'The pinned `not idx.any()` variant is refuted by a machine-checked witness over Qc.',
-    note='The models are tied to /repo on every run: exact Qc evaluation of _optimize_core and of tiny als runs, '
-         'binary64 (PrimFloat) evaluation of the same Gallina terms for 1..3 sweeps (agreement 1e-9 relative). '
-         'Not modelled: allow_swap=True, update_sol, lamb=None, als_func with n_max set (dynamic mode-size search), '
-         'use_stab, log. als(nswp=0) executes one sweep (proved: equals nswp=1); restart is for a,b >= 1.',
-    technique='Coq proof (interface invariant by induction over the sweep, ridge identity in a commutative ring, '
-              'order argument at R) + exact/float model-implementation correspondence + implementation-level search')
-TRUSTED = ['Coq 8.16.1 kernel + vm_compute (case evaluation only)',
-           'hand-written models Model/Als.v, Model/AlsFunc.v, Lin/Solve.v tied to als.py / als_func.py by correspondence',
-           'oracle contract: scipy.linalg.lstsq(gelsy) on a symmetric positive definite system N returns x with N x = rhs',
-           'oracle contract: matrix_skeleton(A, e, r, rel=True) returns factors with inner size <= r; orthogonalize keeps shapes',
+    text='Coq theorems (Properties/C07.v) about the models Model/Als.v (als: constant rank and rank-adaptive) and '
+         'Model/AlsFunc.v (als_func, n_max=None), for every d, mode sizes, ranks, sample list (duplicates, weights, any '
+         'order), every solver unless a contract is named. '
+         'SHAPE: what als / als_func return has the (r1, n, r2) of every core of the initial approximation '
+         '(C07_als_shape, C07_als_func_shape). '
+         'INFO: the returned cores are those after exactly info[nswp] >= 1 sweeps (C07_als_sweep_count, '
+         'C07_als_func_sweep_count); with only nswp given max(1, nswp) sweeps are executed and reported with stop=nswp '
+         '(C07_als_nswp, C07_als_func_nswp); every stop reason is justified by the options (C07_als_stop_reason, '
+         'C07_als_func_stop_reason); a callback returning True after sweep t stops the run right after that sweep at '
+         'the latest, and with exactly t sweeps and stop=cb when it is the first reason (C07_als_cb_stops, '
+         'C07_als_cb_first). '
+         'MISSING SLICES: ValueError unless allow_skip_cores, the validation fires exactly on uncovered slices '
+         '(C07_als_missing_rejected, C07_uncovered_slice_detected, C07_covered_accepted). '
+         'INTERFACES: after every core update the interface matrices hold the true partial products of every sample '
+         'and the update equals the one of an interface-free reference (C07_interfaces_init/fwd/bwd, '
+         'C07_func_interfaces_init/fwd/bwd). '
+         'ALGEBRA (commutative ring): get is linear in one slice with the row the code forms '
+         '(C07_get_linear_in_slice), the functional TT is linear in one whole core (C07_func_linear_in_core), the '
+         'objective as a function of one core is the sum of the ridge objectives the code solves plus a constant '
+         '(C07_objective_splits, C07_func_objective_splits), ridge identity J(x+h) = J(x) + sum w (a.h)^2 + lamb |h|^2 '
+         'for a solution x of the normal equations (C07_ridge_identity). '
+         'DESCENT / OPTIMALITY (at R, lamb > 0, weights >= 0, contract: the solver returns a solution of a symmetric '
+         'positive definite system): the system the code forms is SPD and gets solved (C07_normal_equations_solved); '
+         'every core update, of the reference and of the code with interface matrices, does not increase the '
+         'regularised weighted objective (C07_core_update_descends, C07_code_fwd/bwd_update_descends, '
+         'C07_func_core_update_descends), hence it never increases from sweep to sweep (C07_als_descends, '
+         'C07_als_func_descends); right after its update a core is the exact minimiser over all cores of its shape '
+         'given the others (C07_core_update_optimal: when each of its slices has a sample; '
+         'C07_func_core_update_optimal: always), in particular the core updated last (core 1) of the result '
+         '(C07_als_last_core_optimal, C07_als_func_last_core_optimal). '
+         'RESTART: nswp = a+b equals nswp = a, then a fresh call on the result with nswp = b, a, b >= 1 '
+         '(C07_als_restart, C07_sweeps_restart, C07_als_func_restart). '
+         'SAMPLE ORDER: the whole result of als (cores and info) is invariant under permutations of the sample list, '
+         'for every option set (C07_als_sample_order); the pinned `not idx.any()` code was order dependent '
+         '(C07_pinned_order_dependent, witness over Qc). '
+         'ADAPTIVE (d >= 3; contracts: matrix_skeleton returns inner size <= its r argument, orthogonalize keeps mode '
+         'sizes): every TT-rank of the result is <= r and mode sizes are kept (C07_adaptive_ranks). '
+         'The same for als_func with y[sigma], H[k][sigma,:] (C07_als_func_sample_order).',
+    note='The models are tied to /repo on every run: exact Qc evaluation of _optimize_core and of small als / als_func '
+         'runs; binary64 (PrimFloat) evaluation of the same Gallina terms for 1..3 sweeps over all option paths (e, '
+         'e_vld, cb, nswp=0, allow_skip_cores, permuted samples, restart) within 1e-9 relative, status / nswp / stop '
+         'exact; rank-adaptive runs with the recorded outputs of orthogonalize / matrix_skeleton replayed. '
+         'Not modelled: allow_swap=True, update_sol, lamb=None, use_stab, log, info[t], info[r], negative indices; '
+         'als_func with n_max set or with a basis wider than the mode size of A0; in the adaptive mode an index pair '
+         'without sample leaves np.empty memory in the code (the model puts 0, the correspondence covers all pairs). '
+         'als(nswp=0) executes one sweep (proved). chain 1 Y 1 (matching ranks) is a hypothesis of the '
+         'restart / order / descent theorems.',
+    technique='Coq proof (interface invariant by induction over the sweep, simulation of the driver loop, ridge '
+              'identity in a commutative ring, order argument at R) + exact/float model-implementation '
+              'correspondence + implementation-level search')
+TRUSTED = ['Coq 8.16.1 kernel + vm_compute (case evaluation, the Qc witnesses)',
+           'hand-written models Model/Als.v, Model/AlsFunc.v, Lin/Solve.v tied to als.py / als_func.py / utils._info_appr by correspondence',
+           'oracle contract (spd_solver): scipy.linalg.lstsq(gelsy) on a symmetric positive definite system N returns x with N x = rhs '
+           '(checked every run against exact Gauss-Jordan over Qc and in binary64 to 1e-9)',
+           'oracle contracts of the adaptive mode: matrix_skeleton(A, e, r, rel=True) returns factors with inner size <= r; '
+           'orthogonalize keeps mode sizes (their recorded outputs are replayed in the correspondence)',
+           'oracles without contract: teneva.accuracy / accuracy_on_data values, the callback',
            'numpy einsum / reshape / fancy indexing semantics as re-expressed in the model',
            'Reals axioms of the Coq standard library for the order statements (listed by Print Assumptions)']
 ASSUMPTIONS = ['lamb is not None and lamb > 0, weights >= 0 (w=None is the weight vector of ones)',
@@ -479,9 +516,12 @@ def stream_als_f(R, ctx, tn):
                         continue
                     iv = run_als(tn, c, nswp=3, vld=(Iv, yv), e_vld=thr, record=True)
                     add(c, iv, als_f_term(c, iv, 3, e_vld=thr), 'e_vld', thr=thr, Iv=Iv, yv=yv)
-        if t % 6 == 5:
+        if t % 6 in (0, 4):
             i0 = run_als(tn, c, nswp=0)
             add(c, i0, als_f_term(c, None, 0), 'nswp0')
+            # a stop reason set in front of the loop is kept when the callback returns True after the first sweep
+            i1 = run_als(tn, c, nswp=0, cb=lambda Y, info, opts: True)
+            add(c, i1, als_f_term(c, None, 0, t0=1), 'nswp0+cb', t0=1)
     # all permutations of a small sample set
     c = gen_case(rng, family='single0', d=3)
     c['I'], c['y'] = c['I'][:max(c['shape']) + 1], c['y'][:max(c['shape']) + 1]
@@ -769,6 +809,47 @@ def oracle_als(tn, c, rng_seed=0):
     return None
 
 
+def oracle_stop(tn, c, rng):
+    """stop contract for e_vld and e on the implementation: thresholds far from every observed value"""
+    Iv = [[rng.randrange(n) for n in c['shape']] for _ in range(4)]
+    yv = [rng.randint(-3, 3) or 1 for _ in range(4)]
+    seen = []
+    rec = run_als(tn, c, nswp=3, vld=(Iv, yv), cb=lambda Y, info, opts: seen.append((info['nswp'], float(info['e']), float(info['e_vld']))))
+    if rec['status'] != 0 or len(seen) != 3:
+        return None
+    ev = [s_[2] for s_ in seen]
+    es = [s_[1] for s_ in seen]
+    if min(ev) > 1e-9:
+        hi, lo = 2.0 * max(ev) + 10.0, 0.5 * min(ev)
+        r1 = run_als(tn, c, nswp=3, vld=(Iv, yv), e_vld=hi)
+        # the validation error of Y0 may be anything: the run stops after sweep 1 at the latest (reason e_vld)
+        if r1['status'] != 0 or r1['nswp'] != 1 or r1['stop'] != STOP['e_vld']:
+            return dict(what='e_vld above every validation error does not stop right after the first sweep with stop=e_vld',
+                        got=[r1.get('nswp'), r1.get('stop')], expected=[1, STOP['e_vld']], e_vld=hi, Iv=Iv, yv=yv)
+        r2 = run_als(tn, c, nswp=3, vld=(Iv, yv), e_vld=lo)
+        pre = float(np.linalg.norm(np.array([tt_get([np.array(G, dtype=float) for G in c['Y0']], i) for i in Iv]) - np.array(yv, dtype=float))
+                    / np.linalg.norm(np.array(yv, dtype=float)))
+        if pre > lo * (1 + 1e-6) and (r2['status'] != 0 or r2['nswp'] != 3 or r2['stop'] != STOP['nswp']):
+            return dict(what='e_vld below every validation error stopped the run early or changed the stop reason',
+                        got=[r2.get('nswp'), r2.get('stop')], expected=[3, STOP['nswp']], e_vld=lo, Iv=Iv, yv=yv)
+    if min(es) > 1e-9:
+        hi, lo = 2.0 * max(es) + 10.0, 0.5 * min(es)
+        r3 = run_als(tn, c, nswp=3, e=hi)
+        if r3['status'] != 0 or r3['nswp'] != 1 or r3['stop'] != STOP['e']:
+            return dict(what='e above every sweep-to-sweep change does not stop right after the first sweep with stop=e',
+                        got=[r3.get('nswp'), r3.get('stop')], expected=[1, STOP['e']], e=hi)
+        r4 = run_als(tn, c, nswp=3, e=lo)
+        if r4['status'] != 0 or r4['nswp'] != 3 or r4['stop'] != STOP['nswp']:
+            return dict(what='e below every sweep-to-sweep change stopped the run early or changed the stop reason',
+                        got=[r4.get('nswp'), r4.get('stop')], expected=[3, STOP['nswp']], e=lo)
+    # a reason set in front of the loop (nswp=0) is kept when the callback returns True
+    r5 = run_als(tn, c, nswp=0, cb=lambda Y, info, opts: True)
+    if r5['status'] != 0 or r5['nswp'] != 1 or r5['stop'] not in (STOP['nswp'], STOP['cb']):
+        return dict(what='nswp=0 with a callback returning True: not exactly one sweep / undocumented stop reason',
+                    got=[r5.get('nswp'), r5.get('stop')])
+    return None
+
+
 def oracle_adaptive(tn, c, r):
     res = run_als(tn, c, nswp=2, r=r)
     if res['status'] != 0:
@@ -897,6 +978,17 @@ def search(R, ctx, deep, hints):
             push('als', jcase(c), oracle_als(tn, c))
         except Exception as ex:  # noqa
             push('als', jcase(c), dict(what='oracle raised: ' + repr(ex)[:200]))
+    for t in range(20 if deep else 4):
+        if len(fails) >= 5:
+            break
+        c = gen_case(rng, family='generic', d=rng.choice([2, 3]))
+        c['skip'] = True
+        n_eval += 1
+        srng = C.Rng(1000 + t)
+        try:
+            push('stop', jcase(c, srng=1000 + t), oracle_stop(tn, c, srng))
+        except Exception as ex:  # noqa
+            push('stop', jcase(c, srng=1000 + t), dict(what='oracle raised: ' + repr(ex)[:200]))
     for t in range(30 if deep else 6):
         if len(fails) >= 5:
             break
@@ -933,6 +1025,9 @@ def replay(data):
     elif kind == 'als':
         c = dict(inp, lamb=Fraction(inp['lamb']), w=[Fraction(v) for v in inp['w']] if inp.get('w') else None)
         f = oracle_als(tn, c)
+    elif kind == 'stop':
+        c = dict(inp, lamb=Fraction(inp['lamb']), w=[Fraction(v) for v in inp['w']] if inp.get('w') else None)
+        f = oracle_stop(tn, c, C.Rng(inp['srng']))
     elif kind == 'adaptive':
         c = dict(inp, lamb=Fraction(inp['lamb']), w=None)
         f = oracle_adaptive(tn, c, inp['r'])
